@@ -319,6 +319,10 @@ def serializable_property(name: str, docstring: str | None = None) -> property:
           value: The value to set
         """
         setattr(obj, "_" + name, value)
+        if name.endswith("_timezone"):
+            # A new offset is not the "-0000" (unnecessary minus) spelling
+            # that may have been parsed for the old one.
+            setattr(obj, "_" + name + "_neg_utc", False)
         obj._needs_serialization = True
 
     def get(obj: "ShaFile") -> object:
